@@ -12,7 +12,9 @@ PROP = "C18"
 RULE = ("qmail-clean: every request stream over {f,o,p,/,1,NUL,x} and over {t,o,d,/,1,NUL,X} up to length %(L1)s, every one of 24 near-miss "
         "prefixes followed by every tail over {0,1,9,/,.,:,X,NUL,0xff,f} up to length %(L2)s (also followed by a second valid request, with unlink "
         "outcomes ok/ENOENT/EIO), %(NR)s seeded random multi-request streams (numbers around 2^32/2^63/2^64 and wrapped, leading zeros, lengths around "
-        "100 and beyond the 256-byte buffer, read chunkings); spawn.c with qmail-lspawn and with qmail-rspawn: every message id over {1,/,.,a,0xff,:} up to "
+        "100 and beyond the 256-byte buffer, read chunkings), cleanuppid() on a scripted pid/ (every one of 14 name classes incl. '.', '..', a 255-byte name x "
+        "stat failure / atime = now-OSSIFIED-1, now-OSSIFIED, now-OSSIFIED+1, 0, now, future x two clocks; the empty directory; failing opendir; NR/8 random "
+        "sessions of 0..70 requests so that the sweeps of iterations 0, 31 and 62 run, each with its own listing of 0..6 entries); spawn.c with qmail-lspawn and with qmail-rspawn: every message id over {1,/,.,a,0xff,:} up to "
         "length %(LS)s x delivery numbers {0,1,119,120,121,255} x recipients x 9 open/fstat/pipe/fork outcomes, every child output over {r,h,s,K,Z,D,NUL,x} up to "
         "length %(LS1)s with 6 wait statuses, every exit code and signal, %(NS)s random sessions (commands cut into arbitrary reads, truncated, oversized, re-used "
         "delivery numbers, hostile/long child output, exits in any order); qmail-send del_dochan: every report stream over {0,1,2,3,4,K,Z,D,x,0xff} up to "
@@ -73,11 +75,18 @@ def neighbourhood_cases(dis, seed):
         try:
             if kind == "clean":
                 b = bytes.fromhex("" if f["in"] == "-" else f["in"])
+                sc = f.get("scans", "-")
                 for _ in range(300):
                     m = mutate_bytes(rnd, b, b"0123456789/.x\x00fopt d\xff:")
                     for pre in ("C 0 -", "C 1 -", "C 0 02", "C 0 0102"):
-                        cases.add("%s %s" % (pre, hx(m)))
-                cases.add("C 0 %s %s" % (f.get("plan", "-"), f["in"]))
+                        cases.add("%s %s %s" % (pre, hx(m), sc))
+                cases.add("C 0 %s %s %s" % (f.get("plan", "-"), f["in"], sc))
+                if sc != "-":
+                    # the same directory listings with the clocks and access times moved by a few seconds / by OSSIFIED
+                    for _ in range(60):
+                        d = rnd.choice([-129601, -129600, -2, -1, 1, 2, 129600, 129601])
+                        sc2 = re.sub(r"(^|;)(\d+)@", lambda mo: "%s%d@" % (mo.group(1), max(0, int(mo.group(2)) + d)), sc)
+                        cases.add("C 0 %s %s %s" % (f.get("plan", "-"), f["in"], sc2))
             elif kind == "send":
                 b = bytes.fromhex("" if f["in"] == "-" else f["in"])
                 pre = "D %s %s %s %s" % (f["c"], f["jobs"], f["slots"], f["plan"])
@@ -154,7 +163,7 @@ def main():
     c.cov["input_distribution"] = {k: v for k, v in stats.items() if k not in ("cases", "distinct_nontrivial", "disagree", "oracle_fail")}
     c.assumptions += [
         "system calls of the helpers are scripted by the harness: unlink/open/fstat/pipe/fork/select/read outcomes are inputs of both the C run and the model",
-        "qmail-clean: the pid/ directory is absent (cleanuppid's own unlinks are outside the request protocol)",
+        "qmail-clean: now(), opendir/readdir/closedir and stat of pid/<name> are scripted (directory listings, access times, stat failures are inputs of both the C run and the model); the result of cleanuppid's own unlinks is ignored by the code and always 0 in the harness; negative times are not exercised",
         "spawn.c: out-of-memory (flagabort), write errors on descriptor 1 and EINTR are not exercised; the code after fork() in the child is not run (C11)",
         "the harness poisons the unused tail of a child's output buffer while report() runs, so a read beyond the output aborts under ASan and is reported with its input",
         "qmail-send: virtualdomains, locals and percenthack are empty in addbounce (stripvdomprepend is the identity); no new delivery starts while the stream is read",
